@@ -697,4 +697,53 @@ theorem shaped (S : SchemaView) :
     have hR := ihR (by nomega) (by nomega)
     exact Shaped.append (Shaped.consEdge hin hsh h0 rfl rfl hv) hR
 
+/-! ### the whole frontend -/
+
+theorem toIR_inv {S : SchemaView} {q : Query} {ir : IRQuery} (h : toIR S q = .ok ir) :
+    ∃ root rootParams acc st1 comp evs st2 vars,
+      S.root? q.rootEdge = some root ∧
+      completeParams root.params q.rootParams = .ok rootParams ∧
+      fillNode S [1] 1 root.target q.root St.init = .ok (acc, st1) ∧
+      finishComponent [1] 1 acc st1 = .ok (comp, evs, st2) ∧
+      addVars [] (varUses comp) = .ok vars ∧
+      (st2.tags.all fun t => st2.used.contains t.name) = true ∧
+      namesDistinct (treeOutputNames q.root) = true ∧
+      ir = ⟨q.rootEdge, rootParams, vars, comp⟩ := by
+  unfold toIR at h
+  simp only [bind_ok, pure_ok, orErr_ok, check_ok] at h
+  obtain ⟨root, h1, rootParams, h2, ⟨acc, st1⟩, h3, ⟨comp, evs, st2⟩, h4, vars, h5, _, h6, _, h7, h8⟩ := h
+  exact ⟨root, rootParams, acc, st1, comp, evs, st2, vars, h1, h2, h3, h4, h5, h6, h7, h8.symm⟩
+
+/-- clauses 1 and 4 -/
+theorem toIR_numbering_endpoints {S : SchemaView} {q : Query} {ir : IRQuery}
+    (h : toIR S q = .ok ir) :
+    wfNumberingC ir.rootComponent = true ∧ wfEndpointsC ir.rootComponent = true ∧
+      wfIntervalsC ir.rootComponent = true := by
+  obtain ⟨root, rootParams, acc, st1, comp, evs, st2, vars, _, _, h3, h4, _, _, _, rfl⟩ := toIR_inv h
+  obtain ⟨hin, hsh⟩ := (shaped S).1 _ _ _ _ _ _ _ h3 rfl (by decide)
+  obtain ⟨f1, f2, f3, _⟩ := shaped_finish hin hsh h4
+  exact ⟨f1, f3, f2⟩
+
+/-- clause 2, and the top-level part of clause 3 -/
+theorem toIR_unique {S : SchemaView} {q : Query} {ir : IRQuery} (h : toIR S q = .ok ir) :
+    wfUnique ir.rootComponent = true ∧ isInterval 1 (allEids ir.rootComponent) = true := by
+  obtain ⟨root, rootParams, acc, st1, comp, evs, st2, vars, _, _, h3, h4, _, _, _, rfl⟩ := toIR_inv h
+  have c := (counted S).1 _ _ _ _ _ _ _ h3
+  obtain ⟨hv, he, _⟩ := allVids_finish h4
+  have i1 : St.init.nextVid = 2 := rfl
+  have i2 : St.init.nextEid = 1 := rfl
+  rw [i1, i2] at c
+  refine ⟨?_, ?_⟩
+  · simp only [wfUnique, Bool.and_eq_true]
+    refine ⟨natsDistinct_of_count ?_, natsDistinct_of_count ?_⟩
+    · intro x; show (allVids comp).count x ≤ 1; rw [hv, c.vids]
+      by_cases hx : x = 1
+      · subst hx; simp [inRange]
+      · simp only [hx, if_false]; unfold inRange; split <;> omega
+    · intro x; show (allEids comp).count x ≤ 1; rw [he, c.eids]; unfold inRange; split <;> omega
+  · show isInterval 1 (allEids comp) = true
+    rw [he]
+    exact isInterval_of_count c.eids c.elen
+
+
 end TF.Frontend
